@@ -43,6 +43,7 @@ type clusterSpec struct {
 	objs   []runtime.Object
 	allow  sets.String // user names the fake SubjectAccessReview answers "allowed" for
 	sarErr bool        // the SubjectAccessReview API call itself fails (must be treated as "not authorised")
+	mode   string      // sarPolicy.mode
 	policy *sarPolicy
 }
 
@@ -53,6 +54,8 @@ type sarPolicy struct {
 	allow    sets.String
 	apiError bool
 	wrong    string // first review that did not ask "list secrets in the user's namespace" (for the oracle)
+	mode     string // how answers are dressed: "" plain; "denied": refusals carry Denied=true; "evalerr": every answer
+	// carries an EvaluationError (which is informational: only Allowed decides)
 }
 
 func installSAR(cs *fake.Clientset, p *sarPolicy) {
@@ -73,9 +76,14 @@ func installSAR(cs *fake.Clientset, p *sarPolicy) {
 		if !exact && p.wrong == "" {
 			p.wrong = fmt.Sprintf("user=%s attrs=%v", a.Spec.User, ra)
 		}
-		return true, &authorizationv1.SubjectAccessReview{
-			Status: authorizationv1.SubjectAccessReviewStatus{Allowed: ok, Reason: "verif"},
-		}, nil
+		st := authorizationv1.SubjectAccessReviewStatus{Allowed: ok, Reason: "verif"}
+		switch p.mode {
+		case "denied":
+			st.Denied = !ok
+		case "evalerr":
+			st.EvaluationError = "authorizer webhook timed out"
+		}
+		return true, &authorizationv1.SubjectAccessReview{Status: st}, nil
 	})
 }
 
@@ -88,6 +96,7 @@ type sdsSUT struct {
 	cache  model.XdsCache
 	gen    *pxds.SecretGen
 	remote bool
+	mesh   *meshconfig.MeshConfig  // mesh config of the generator (default ProxyConfig with a private key provider, or nil)
 	now    int                     // clock seconds since `start` (advanced by `tick` and by policy changes)
 	hist   map[string][]policySnap // per cluster: what the authoriser answered from which second on
 }
@@ -144,13 +153,13 @@ func (s *sdsSUT) start(cfg string, remoteCreds bool) {
 	for _, id := range s.order {
 		sp := s.specs[id]
 		client := kube.NewFakeClient(sp.objs...)
-		sp.policy = &sarPolicy{allow: sp.allow, apiError: sp.sarErr}
+		sp.policy = &sarPolicy{allow: sp.allow, apiError: sp.sarErr, mode: sp.mode}
 		installSAR(client.Kube().(*fake.Clientset), sp.policy)
 		mc.Add(cluster.ID(id), client, s.stop)
 		client.RunAndWait(s.stop)
 	}
 	s.cache = model.NewXdsCache()
-	s.gen = pxds.NewSecretGen(s.creds, s.cache, cluster.ID(cfg), nil)
+	s.gen = pxds.NewSecretGen(s.creds, s.cache, cluster.ID(cfg), s.mesh)
 	s.now, s.hist = 0, map[string][]policySnap{}
 	for _, id := range s.order {
 		s.snapshot(id)
@@ -195,6 +204,15 @@ func (s *sdsSUT) policyChange(id string, f func(sp *clusterSpec)) {
 }
 
 // allowedWithin: did the authoriser of the cluster truly allow the user at some second in (now-window, now]?
+func (s *sdsSUT) everAllowed(id, user string) bool {
+	for _, sn := range s.hist[id] {
+		if !sn.err && sn.allow.Contains(user) {
+			return true
+		}
+	}
+	return false
+}
+
 func (s *sdsSUT) allowedWithin(id, user string, window int) bool {
 	h := s.hist[id]
 	for i, sn := range h {
@@ -271,6 +289,8 @@ func (g genReq) proxy() *model.Proxy {
 	}
 	if pc := pkpConfig(g.pkp); pc != nil {
 		p.Metadata.ProxyConfig = &model.NodeMetaProxyConfig{PrivateKeyProvider: pc}
+	} else if g.pkp == "none" {
+		p.Metadata.ProxyConfig = &model.NodeMetaProxyConfig{} // a ProxyConfig of its own, without a provider
 	}
 	return p
 }
@@ -433,6 +453,16 @@ func (s *sdsSUT) apply(f []string) string {
 	case "sarok":
 		s.policyChange(wire.Dec(f[1]), func(sp *clusterSpec) { sp.sarErr = false })
 		return "ok"
+	case "sarmode":
+		s.spec(wire.Dec(f[1])).mode = f[2]
+		return "ok"
+	case "meshpkp":
+		// the mesh-wide default ProxyConfig selects a private key provider (used by proxies that send no ProxyConfig)
+		s.mesh = nil
+		if pc := pkpConfig(f[1]); pc != nil {
+			s.mesh = &meshconfig.MeshConfig{DefaultConfig: &meshconfig.ProxyConfig{PrivateKeyProvider: pc}}
+		}
+		return "ok"
 	case "tick":
 		n, _ := strconv.Atoi(f[1])
 		if s.gen != nil {
@@ -543,6 +573,12 @@ func genWorld(r *wire.Rng, out *wire.Out) (clusters []string, cfg string) {
 	}
 	if r.Chance(1, 10) {
 		out.Line("sarerr", wire.Pick(r, clusters))
+	}
+	if r.Chance(1, 5) {
+		out.Line("meshpkp", wire.Pick(r, []string{"cryptomb", "qat"}))
+	}
+	if r.Chance(1, 4) {
+		out.Line("sarmode", wire.Pick(r, clusters), wire.Pick(r, []string{"denied", "evalerr"}))
 	}
 	if r.Chance(1, 10) {
 		out.Line("start", cfg, "0") // PILOT_ENABLE_REMOTE_CREDENTIALS_CONTROLLER=false
@@ -675,7 +711,7 @@ func genSDS(seed uint64, n int, outp string) {
 		var proxies []genProxy
 		for i, k := 0, 2+r.Intn(3); i < k; i++ {
 			p := genProxy{hasVid: r.Chance(9, 10), td: "cluster.local", ns: wire.Pick(r, storeNs), sa: wire.Pick(r, sdsSAs),
-				cluster: wire.Pick(r, clusters), ptype: wire.Pick(r, []string{"router", "sidecar", "router", "router", "router+cryptomb", "router+qat"})}
+				cluster: wire.Pick(r, clusters), ptype: wire.Pick(r, []string{"router", "sidecar", "router", "router", "router+cryptomb", "router+qat", "router+none"})}
 			if r.Chance(1, 10) {
 				p.cluster = wire.Pick(r, []string{"c1", "c2", "cX"})
 			}
@@ -937,7 +973,28 @@ func (s *sdsSUT) oracleGen(f []string) string {
 				((o.cluster == g.cluster && s.remote) || o.cluster == s.cfg)
 			granted := refs.Contains(v.name) && refDenotes(v.name, o, false) && o.cluster == s.cfg
 			if !own && !granted {
-				return "private-key-to-unentitled-proxy " + wire.Enc(v.name) + " origin=" + wire.Enc(v.key)
+				// which way the key went wrong (part of the fingerprint: unrelated defects get different fingerprints)
+				branch := "other"
+				user := sa.MakeUsername(g.vid.Namespace, g.vid.ServiceAccount)
+				switch {
+				case strings.HasPrefix(v.name, "kubernetes-gateway://") && !refs.Contains(v.name):
+					branch = "gateway-name-not-verified"
+				case strings.HasPrefix(v.name, "kubernetes-gateway://") && o.cluster != s.cfg:
+					branch = "gateway-secret-not-from-config-cluster"
+				case strings.HasPrefix(v.name, "kubernetes-gateway://"):
+					branch = "gateway-reference-denotes-other-secret"
+				case o.ns != g.vid.Namespace:
+					branch = "other-namespace"
+				case o.name != denoted:
+					branch = "other-secret-than-named"
+				case !authorised && sp != nil && s.everAllowed(g.cluster, user):
+					branch = "rbac-revoked-longer-than-ttl"
+				case !authorised:
+					branch = "no-rbac"
+				default:
+					branch = "wrong-cluster"
+				}
+				return "private-key-to-unentitled-proxy " + wire.Enc(v.name) + " origin=" + wire.Enc(v.key) + " branch=" + branch
 			}
 		case o.kind == "S":
 			// CA material of a Secret: the secret the name denotes, or that name without the -cacert suffix
@@ -962,7 +1019,7 @@ func (s *sdsSUT) oracleGen(f []string) string {
 		}
 	}
 	// history / cache independence: a generator with an empty cache over the same controllers
-	fresh := pxds.NewSecretGen(s.creds, model.NewXdsCache(), cluster.ID(s.cfg), nil)
+	fresh := pxds.NewSecretGen(s.creds, model.NewXdsCache(), cluster.ID(s.cfg), s.mesh)
 	res2, _ := s.generate(fresh, g)
 	if a, b := showViews(vs), showViews(views(res2)); a != b {
 		return fmt.Sprintf("answer-depends-on-history shared=%s fresh=%s", a, b)
